@@ -431,6 +431,12 @@ func (h *SolverHub) solve(ss *solverSet, query string, vals []string, hasStr boo
 		t0 := time.Now()
 		res, model := p.check(query, vals)
 		h.record(kind, res, time.Since(t0))
+		if d := os.Getenv("GOSMT_DUMP_ALL"); d != "" {
+			n := atomic.AddInt64(&dumpN, 1)
+			if n < 400 {
+				os.WriteFile(fmt.Sprintf("%s/q-%04d-%s-%dus.smt2", d, n, res, time.Since(t0).Microseconds()), []byte(query+"(check-sat)\n"), 0644)
+			}
+		}
 		if d := os.Getenv("GOSMT_DUMP_SLOW"); d != "" && time.Since(t0) > 500*time.Millisecond {
 			n := atomic.AddInt64(&dumpN, 1)
 			os.WriteFile(fmt.Sprintf("%s/slow-%s-%d-%s-%dms.smt2", d, kind, n, res, time.Since(t0).Milliseconds()), []byte(query+"(check-sat)\n"), 0644)
